@@ -46,13 +46,13 @@ func Harness_K1_Name() {
 	first := firstElem(o.JSONTag)
 	switch {
 	case okP:
-		vrtAssert("C02/K1/override-by-path-first", got == byPath)
+		vrtAssert("C02+C11/K1/override-by-path-first", got == byPath)
 	case okK:
-		vrtAssert("C02/K1/override-by-message-field", got == byKey)
+		vrtAssert("C02+C11/K1/override-by-message-field", got == byKey)
 	case o.HasJSONTag && first != "" && first != "-":
-		vrtAssert("C02/K1/json-tag-first-element", got == first)
+		vrtAssert("C02+C11/K1/json-tag-first-element", got == first)
 	default:
-		vrtAssert("C02/K1/snake-case-of-proto-name", got == strcase.SnakeCase(name))
+		vrtAssert("C02+C11/K1/snake-case-of-proto-name", got == strcase.SnakeCase(name))
 	}
 	vrtReach("K1/name/end")
 }
